@@ -57,6 +57,8 @@ func newZWorld(p *Program) *zworld {
 type zfn struct {
 	convBusy  map[*ssa.Convert]bool
 	convExact map[*ssa.Convert]bool
+	addBusy   map[*ssa.BinOp]bool
+	addExact  map[*ssa.BinOp]bool
 	w     *zworld
 	fn    *ssa.Function
 	facts []anchoredFact
@@ -366,6 +368,30 @@ func (z *zfn) termD(v ssa.Value, d int) lin {
 		case token.ADD:
 			if wrapSafe {
 				return z.termD(x.X, d+1).plus(z.termD(x.Y, d+1), 1)
+			}
+			// an unsigned addition that provably does not wrap where it is computed is the mathematical sum
+			// (decided once per instruction)
+			if bits, _, _ := z.intBits(x.Type()); bits <= 32 {
+				if keep, done := z.addExact[x]; done {
+					if keep {
+						return z.termD(x.X, d+1).plus(z.termD(x.Y, d+1), 1)
+					}
+				} else if !z.addBusy[x] {
+					if z.addBusy == nil {
+						z.addBusy = map[*ssa.BinOp]bool{}
+						z.addExact = map[*ssa.BinOp]bool{}
+					}
+					z.addBusy[x] = true
+					sum := z.termD(x.X, d+1).plus(z.termD(x.Y, d+1), 1)
+					goal := sum.clone()
+					goal.c -= int64(1)<<uint(bits) - 1
+					keep, _ := z.prove(x, []lin{goal})
+					z.addBusy[x] = false
+					z.addExact[x] = keep
+					if keep {
+						return sum
+					}
+				}
 			}
 		case token.SUB:
 			if signed {
@@ -1867,6 +1893,49 @@ func (z *zfn) obligationsOf() []zobl {
 			}
 			goals := []lin{l.scale(-1), leq(l, cp, 0)}
 			out = append(out, zobl{In: in, Kind: "make", Goals: goals, Desc: "0 <= len <= cap"})
+			// the terms above are mathematical: an addition in the size expression that wraps round its (narrow)
+			// type gives a capacity below the length, and make panics.  Each addition of 8/16/32-bit operands in the
+			// size expressions must be shown not to wrap.
+			var walkSize func(v ssa.Value, d int)
+			walkSize = func(v ssa.Value, d int) {
+				if d > 4 {
+					return
+				}
+				switch y := v.(type) {
+				case *ssa.Convert:
+					walkSize(y.X, d+1)
+				case *ssa.ChangeType:
+					walkSize(y.X, d+1)
+				case *ssa.BinOp:
+					if bits, signed, ok := z.intBits(y.Type()); ok && bits <= 32 && (y.Op == token.ADD || y.Op == token.SUB) {
+						a, b := z.term(y.X), z.term(y.Y)
+						if !(a.isConst() && b.isConst()) {
+							var g lin
+							if y.Op == token.ADD {
+								g = a.clone()
+								for k, cf := range b.coef {
+									g.coef[k] += cf
+								}
+								g.c += b.c
+								max := int64(1)<<uint(bits) - 1
+								if signed {
+									max = int64(1)<<uint(bits-1) - 1
+								}
+								g.c -= max
+								out = append(out, zobl{In: in, Kind: "wrap", Goals: []lin{g}, Desc: fmt.Sprintf("%d-bit addition in a make size does not wrap", bits)})
+							} else if !signed {
+								out = append(out, zobl{In: in, Kind: "wrap", Goals: []lin{leq(b, a, 0)}, Desc: fmt.Sprintf("%d-bit unsigned subtraction in a make size does not wrap", bits)})
+							}
+						}
+					}
+					walkSize(y.X, d+1)
+					walkSize(y.Y, d+1)
+				}
+			}
+			walkSize(x.Len, 0)
+			if x.Cap != x.Len {
+				walkSize(x.Cap, 0)
+			}
 			// allocation bounded by a constant or by the length of some existing slice
 			var alts [][]lin
 			lim := cp.clone()
